@@ -142,19 +142,54 @@ pub trait LoopUpdater: OpContainer + Factory<Vec<Leg>> + Factory<Vec<f64>> {
         };
 
         if self.get_n() > 0 {
-            let initial_n = initial_n
-                .map(|n| min(n, self.get_n()))
-                .unwrap_or_else(|| rng.gen_range(0..self.get_n()));
-            let nth_p = self.get_nth_p(initial_n);
-            // Get starting leg for pth op.
-            let op = self.get_node_ref(nth_p).unwrap();
-            let n_vars = op.get_op_ref().get_vars().len();
+            // Get starting op and leg.
+            let start = if let Some(n) = initial_n {
+                let nth_p = self.get_nth_p(min(n, self.get_n()));
+                let op = self.get_node_ref(nth_p).unwrap();
+                let n_vars = op.get_op_ref().get_vars().len();
+                if n_vars == 0 {
+                    None
+                } else {
+                    Some((nth_p, rng.gen_range(0..n_vars)))
+                }
+            } else {
+                // The starting leg must be uniform over the legs of ALL ops (an op is entered in
+                // proportion to the number of variables it covers): the reversed loop starts from
+                // the leg at the other end of the first link, which may belong to an op covering a
+                // different number of variables.
+                let mut total_vars = 0;
+                let mut p = self.get_first_p();
+                while let Some(pp) = p {
+                    let node = self.get_node_ref(pp).unwrap();
+                    total_vars += node.get_op_ref().get_vars().len();
+                    p = self.get_next_p(node);
+                }
+                if total_vars == 0 {
+                    None
+                } else {
+                    let mut r = rng.gen_range(0..total_vars);
+                    let mut p = self.get_first_p();
+                    let mut found = None;
+                    while let Some(pp) = p {
+                        let node = self.get_node_ref(pp).unwrap();
+                        let k = node.get_op_ref().get_vars().len();
+                        if r < k {
+                            found = Some((pp, r));
+                            break;
+                        }
+                        r -= k;
+                        p = self.get_next_p(node);
+                    }
+                    found
+                }
+            };
             // An op which covers no variables (a constant term) has no legs to enter.
-            if n_vars == 0 {
+            let (nth_p, initial_var) = if let Some(start) = start {
+                start
+            } else {
                 self.post_loop_update_hook();
                 return;
-            }
-            let initial_var = rng.gen_range(0..n_vars);
+            };
             let initial_direction = if rng.gen() {
                 OpSide::Inputs
             } else {
